@@ -49,8 +49,8 @@ REQUIRED_REACH = {'*': [
     'i2_unconfigurable_evaluations', 'i4_unchanged_running_evaluations', 'i5_deleted_evaluations',
 ]}
 
-_MAX_SHRINKS = 4
-_SHRINK_S = {'quick': 3.0, 'thorough': 10.0}
+_MAX_SHRINKS = 3
+_SHRINK_S = {'quick': 2.5, 'thorough': 10.0}
 
 
 def _known_mechanisms():
